@@ -22,7 +22,7 @@ pub enum GitAiError { Generic(String) }
 /// stand-in for std::process::Output (only stdout is read)
 pub struct Output { pub stdout: Vec<u8> }
 /// stand-in for crate::git::repository::Repository
-pub struct Repository { pub _opaque: () }
+#[verifier::external_body] pub struct Repository { _o: () }
 //#item file=src/git/repository.rs kind=enum name=InternalGitProfile derive=PartialEq,Eq,Clone,Copy
 //@ #[derive(Structural)]
 #[derive(PartialEq, Eq, Clone, Copy)]
@@ -349,7 +349,7 @@ fn get_git_diff_stats_for_range(
 // ---------------------------------------------------------------- the note and the headline numbers (types as in unit stats)
 //#include ../_shared/linerange_type.inc.rs
 /// the note's types.  AuthorshipMetadata is a stand-in: the verified text never inspects it
-pub struct AuthorshipMetadata { pub _opaque: () }
+#[verifier::external_body] pub struct AuthorshipMetadata { _o: () }
 //#item file=src/authorship/authorship_log_serialization.rs kind=struct name=AttestationEntry
 pub struct AttestationEntry {
     pub hash: String,
